@@ -1,6 +1,6 @@
 SPECIFICATION Spec
 CONSTANTS
-  N = 3
+  N = 4
   LimR = 1
   LimD = 1
   Passes = 1
